@@ -28,7 +28,11 @@ def graphOfProg (p : Program) : DGraph :=
     E := (allOutEdges p).filterMap fun e =>
       match (allInstances p).idxOf? e.src, (allInstances p).idxOf? e.dst with
       | some i, some j => some (i, j, e.sflow)
-      | _, _ => none }
+      | _, _ => none,
+    ctl := (enumFrom 0 (allInstances p)).flatMap fun (i, t) =>
+      match p.classes[t.cls]? with
+      | some cl => (enumFrom 0 cl.flows).filterMap fun (fi, f) => if f.access == Access.ctl then some (i, fi) else none
+      | none => [] }
 
 def tileOf (p : Program) (nt : Nat) (t : Instance) : Nat :=
   match p.classes[t.cls]? with
@@ -47,14 +51,20 @@ def placeOfProg (p : Program) (nt : Nat) (table : List Nat) (nranks : Nat) (i : 
 def confOf (p : Program) (nt : Nat) (table : List Nat) (topo : Topo) (nranks short : Nat) : Conf :=
   { topo := topo, nranks := nranks, place := placeOfProg p nt table nranks, short := short, size := fun _ => 1 }
 
-/-- nodes whose collective activation violates C13's side condition -/
+/-- nodes whose collective activation violates the side condition of C05_rank_invariance_partial
+    (C13's DeliveryOK restricted to the data outputs) -/
 def notOK (g : DGraph) (cf : Conf) : List Nat :=
+  (List.range g.n).filter fun a => !dataOK (cfgOf g cf a) (g.isCtl a)
+
+/-- nodes whose collective activation violates C13's DeliveryOK (control outputs included) -/
+def notDeliveryOK (g : DGraph) (cf : Conf) : List Nat :=
   (List.range g.n).filter fun a => !(cfgOf g cf a).deliveryOK
 
 /-- (node, receiver rank, output) triples that the collective of `a` never delivers although wanted -/
 def lostOf (g : DGraph) (cf : Conf) (a : Nat) : List (Nat × Nat) :=
   let c := cfgOf g cf a
-  (c.outs.flatMap fun o => o.2.map fun r => (r, o.1)).filter fun rk => c.wanted rk.1 rk.2 && !c.deliveries.contains rk
+  (c.outs.flatMap fun o => o.2.map fun r => (r, o.1)).filter fun rk =>
+    !g.isCtl a rk.2 && c.wanted rk.1 rk.2 && !c.deliveries.contains rk
 
 /-- nodes that can never run: a dependency into them is lost, or comes from such a node -/
 def starved (g : DGraph) (cf : Conf) : List Nat :=
